@@ -27,12 +27,15 @@ GTF_A = ['c1\ts\texon\t1\t50\t.\t+\t.\tgene_id "G1"; transcript_id "T1";', 'c1\t
          'c1\ts\texon\t10\t20\t.\t+\t.\tgene_id "G1"; transcript_id "T2";']
 GTF_B = ['c3\ts\texon\t7\t9\t.\t-\t.\tgene_id "G9"; transcript_id "T9";', 'c3\ts\tCDS\t7\t8\t.\t-\t0\tgene_id "G9"; transcript_id "T9";']
 
+GTF_C = ['c4\ts\tCDS\t7\t9\t.\t+\t0\tgene_id "G4"; transcript_id "T4";', 'c4\ts\tstop_codon\t10\t12\t.\t+\t0\tgene_id "G4"; transcript_id "T4";']
+
 JOBS = {
+    "gtfC": ("path", GTF_C),
     "gffA": ("path", GFF_A), "gffB": ("path", GFF_B), "gtfA": ("path", GTF_A), "gtfB": ("path", GTF_B),
     "gffA_str": ("string", GFF_A),
 }
-SETS2 = [("gffA", "gffA"), ("gffA", "gffB"), ("gffA", "gtfA"), ("gtfA", "gtfB"), ("gtfA", "gtfA"), ("gffB", "gffA_str")]
-SETS3 = [("gffA", "gtfA", "gffB"), ("gtfA", "gtfA", "gtfB"), ("gffA", "gffA", "gffA")]
+SETS2 = [("gffA", "gffA"), ("gffA", "gffB"), ("gffA", "gtfA"), ("gtfA", "gtfB"), ("gtfA", "gtfA"), ("gffB", "gffA_str"), ("gtfC", "gffB")]
+SETS3 = [("gffA", "gtfA", "gffB"), ("gtfA", "gtfC", "gtfB"), ("gffA", "gffA", "gffA")]
 READERS = [2, 3]
 
 
@@ -89,7 +92,9 @@ def run_imports(ch, ctx, jobs):
     fns = []
     outs = []
     for i, j in enumerate(jobs):
-        out = os.path.join(outdir, "out%d.db" % i)
+        # separate output files -- in separate directories, with the same file name
+        os.makedirs(os.path.join(outdir, "job%d" % i))
+        out = os.path.join(outdir, "job%d" % i, "annotation.db")
         outs.append(out)
         fns.append(make_import(JOBS[j][0], JOBS[j][1], out, indir, i))
     children, schedule, stats = sched.run_schedule(ch, fns, shared)
